@@ -186,7 +186,7 @@ Lemma live_init : live (mk_thread empty_state [] 0 0 []).
 Proof.
   exists e_init, []. split; [apply reaches_init|]. split.
   - split; [apply Rst_init|]. cbn [tip e_init e_pc]. apply Rpc_same. unfold bdry. cbn [N.to_nat skipn].
-    now apply Hal.
+    split; [now apply Hal|apply imm_ok_0].
   - intros o Ho. unfold count_of in Ho. cbn in Ho. lia.
 Qed.
 
@@ -300,7 +300,7 @@ Proof.
     + now rewrite Hm1k, Hk87, Hc1k.
     + cbn [post_thread tip tvis]. rewrite Hn, Heq. exact Hl1.
     + exact Hl2.
-    + cbn [post_thread tpath]. rewrite <- Hj. apply reaches_step; auto. now apply reaches_step.
+    + cbn [post_thread tpath]. rewrite <- Hj. apply reaches_step; auto. apply reaches_step; auto. rewrite Hb87. discriminate.
     + exact HR'.
     + exact Hpc'.
     + rewrite <- app_assoc. apply Hvis1.
